@@ -46,7 +46,7 @@ def run(prop, tier):
     inp = os.path.join(wd, "schedules.ndjson")
     outp = os.path.join(wd, "observed.ndjson")
     vlib.write_ndjson(inp, scheds)
-    nrand = 200 if tier == "quick" else 3000
+    nrand = 200 if tier == "quick" else 20000
     vlib.run_bin(hx, ["cipher", "--in", inp, "--out", outp, "--seed", str(seed), "--random", str(nrand)], timeout=1800)
     observed = vlib.read_ndjson(outp)
     tr = vlib.run_tlc("Trace_Cipher", "Trace_Cipher.cfg", wd, workers=1, timeout=1800, markers=("FAIL", "NOTCONSUMED"),
